@@ -48,7 +48,7 @@ import (
 var (
 	dataAttribute             = regexp.MustCompile("^data-.+")
 	dataAttributeXMLPrefix    = regexp.MustCompile("^xml.+")
-	dataAttributeInvalidChars = regexp.MustCompile("[^a-z0-9._\\-\\x{80}-\\x{10FFFF}]")
+	dataAttributeInvalidChars = regexp.MustCompile("[^a-z0-9._\\-\\x{B7}\\x{C0}-\\x{D6}\\x{D8}-\\x{F6}\\x{F8}-\\x{37D}\\x{37F}-\\x{1FFF}\\x{200C}-\\x{200D}\\x{203F}-\\x{2040}\\x{2070}-\\x{218F}\\x{2C00}-\\x{2FEF}\\x{3001}-\\x{D7FF}\\x{F900}-\\x{FDCF}\\x{FDF0}-\\x{FFFD}\\x{10000}-\\x{EFFFF}]")
 	dataURIbase64Prefix       = regexp.MustCompile(`^data:[^,]*;base64,`)
 )
 
@@ -1409,8 +1409,10 @@ func isDataAttribute(val string) bool {
 		return false
 	}
 	// the name has to be XML-compatible and without upper case: no
-	// semi-colons, quotes, angle brackets, colons, control characters.
-	if dataAttributeInvalidChars.MatchString(rest[1]) {
+	// semi-colons, quotes, angle brackets, colons, control characters; of
+	// the characters beyond ASCII only XML's NameChar ranges (not U+0085,
+	// U+00A0, U+2028, noncharacters ...), and no invalid UTF-8.
+	if dataAttributeInvalidChars.MatchString(rest[1]) || !utf8.ValidString(rest[1]) {
 		return false
 	}
 	return true
